@@ -707,8 +707,11 @@ impl Compiler {
             catch_target: 0, // Will be patched
         });
 
-        // Compile body
+        // Compile body (the iterator handler occupies a try-stack slot while it runs: loops
+        // nested in the body must not count it as theirs to unwind)
+        self.try_depth += 1;
         self.compile_statement_impl(&for_of.body)?;
+        self.try_depth -= 1;
 
         // Pop iterator try handler (normal completion, no exception)
         self.builder.emit(Op::PopIterTry);
